@@ -1,7 +1,7 @@
 import NibabelModel.Lemmas.C19_Annot
 import NibabelModel.Lemmas.C19_Resave
 /-! Lemmas/C19_Gen — statements over constants regenerated from the source (`_pack_rgb` shifts, `write_morph_data`
-    limits) and the lemmas behind the proposed `write_annot` repair (core Lean only). -/
+    limits) and the bridge lemmas between the old and the repaired `write_annot` lookup (core Lean only). -/
 namespace Nb.C19
 open Nb.Gen.C19
 
